@@ -392,3 +392,4 @@ ASSUMPTIONS = ["'all argument values' is not claimed: JSON text is a stub, argum
 
 from engine.harness import borrowed  # noqa: E402
 HARNESSES.append(borrowed("c11", "H11-worker-redis", "H07-redis-topic-prefix"))   # a name that extends another survives the Redis short-name filter
+HARNESSES.append(borrowed("c08", "H08-bucket-reuse", "H07-bucket-reuse"))   # arguments through a bucket arrive as enqueued, also when a bucket id is used again
